@@ -59,11 +59,38 @@ EXTRA = [
     'cat <<EOF | tr a-z A-Z; echo next\npiped body\nEOF',
     '{ cat; echo in-group; } <<EOF\ngroup body\nEOF',
 ]
+# whole definitions (marker @DEF@): bodies that are not brace groups, and redirections attached to the DEFINITION (they belong to the function:
+# printed with it, re-read with it, exported with it)
+EXTRA += ["@DEF@" + d for d in [
+    'F() { echo out; echo err >&2; } 2>&1 >/dev/null',
+    'F() ( echo sub; echo e >&2 ) 2>/dev/null',
+    'F() { echo to-err; } >&2',
+    'F() { cat; } <<< "here string $1"',
+    'F() { cat; } <<EOF\ndefinition document $1\nEOF',
+    'F() { cat; cat <&3; } <<A 3<<B\nfirst $1\nA\nsecond\nB',
+    'F() { echo a; } >> "$HOME/appended"; F x; cat "$HOME/appended"',
+    'function F { echo kw "$@"; } 2>&1',
+    'function F() { echo kw2; } >/dev/null',
+    'F() for i in 1 2; do echo $i; done >&2',
+    'F() if [ -n "$1" ]; then echo y; else echo n; fi',
+    'F() while false; do :; done',
+    'F() case $1 in a*) echo A ;; *) echo other ;; esac 2>/dev/null',
+    'F() (( ${#1} > 2 ))',
+    'F() [[ -n $1 && $1 == a* ]]',
+    'F() { read -r l; echo "got $l"; } < /dev/null',
+    'F() { echo x; } 1>&2 2>/dev/null',
+]]
+
+
+def definition(body):
+    return body[5:] if body.startswith("@DEF@") else "F() {\n" + body + "\n}"
+
+
 HERE_RE = re.compile(r"<<-?\s*['\"\\]?[A-Z]")
 
 
 def script(body, arg="abc"):
-    return (PRELUDE % {"R": ""}) + "F() {\n" + body + "\n}\n" + r'''A=$(declare -f F)
+    return (PRELUDE % {"R": ""}) + definition(body) + "\n" + r'''A=$(declare -f F)
 printf '%s\n' "$A" > "$HOME/printed"
 ( F ARG ) > "$HOME/out1" 2>/dev/null; echo "it:$?" >> "$HOME/out1"
 unset -f F
@@ -99,7 +126,7 @@ def run_one(body):
         res["bout"], res["bevalerr"] = rd("bout"), rd("bevalerr")
         # and bash's own run of the ORIGINAL source (reference for "behaves identically")
         with open(os.path.join(d, "o.sh"), "w") as f:
-            f.write((PRELUDE % {"R": ""}) + "F() {\n" + body + "\n}\n( F abc ) > \"$HOME/oout\" 2>/dev/null; echo \"it:$?\" >> \"$HOME/oout\"\n")
+            f.write((PRELUDE % {"R": ""}) + definition(body) + "\n( F abc ) > \"$HOME/oout\" 2>/dev/null; echo \"it:$?\" >> \"$HOME/oout\"\n")
         run_proc([BASH, "--norc", "--noprofile", "o.sh"], d, env, b"", 60)
         res["oout"] = rd("oout")
     shutil.rmtree(d, ignore_errors=True)
